@@ -24,7 +24,7 @@ try:
             print(f'pattern occurs {s.count(old)} times'); sys.exit(9)
         open(p, 'w').write(s.replace(old, new))
         extra = sys.argv[5:]
-    env = dict(os.environ, PYVC_REPO=d)
+    env = dict(os.environ, PYVC_REPO=d, PYVC_OUT=os.path.join(d, 'out'))      # evidence/replays of a mutant run stay in the scratch dir
     r = subprocess.run([os.path.join(ROOT, 'check'), prop] + extra, env=env, cwd=ROOT)
     print('exit', r.returncode)
     sys.exit(r.returncode)
